@@ -67,6 +67,9 @@ fn scaling_method(r: &mut Runner) {
     r.inst("f64/MinMax(-1,0.1+0.2)", |o| go::<f64>(o, ScalingMethod::MinMax(-1.0, 0.1 + 0.2)));
     r.inst("f64/MinMax(2,1)invalid", |o| go::<f64>(o, ScalingMethod::MinMax(2.0, 1.0)));
     r.inst("f64/MaxAbs", |o| go::<f64>(o, ScalingMethod::MaxAbs));
+    r.inst("f64/Standard(false,false)", |o| go::<f64>(o, ScalingMethod::Standard(false, false)));
+    r.inst("f64/MinMax(0,0)", |o| go::<f64>(o, ScalingMethod::MinMax(0.0, 0.0)));
+    r.inst("f64/MinMax(-1e300,1e300)", |o| go::<f64>(o, ScalingMethod::MinMax(-1e300, 1e300)));
     r.inst("f32/MinMax(-2,3)", |o| go::<f32>(o, ScalingMethod::MinMax(-2.0, 3.0)));
     r.inst("f32/Standard(true,true)", |o| go::<f32>(o, ScalingMethod::Standard(true, true)));
 }
@@ -278,6 +281,11 @@ fn cv_points() -> Vec<(&'static str, CountVectorizerParams)> {
         ("cased_literal_regex_lowercase_on_ngram12", CountVectorizer::params().tokenizer(Tokenizer::Regex(CASED_LITERAL_REGEX.to_string())).n_gram_range(1, 2)),
         ("cased_literal_regex_lowercase_off_no_normalize", CountVectorizer::params().tokenizer(Tokenizer::Regex(CASED_LITERAL_REGEX.to_string())).convert_to_lowercase(false).normalize(false)),
         ("inline_case_insensitive_flag_regex", CountVectorizer::params().tokenizer(Tokenizer::Regex(r"(?i)\b(?:[A-Z]\d+|[a-z]{3,})\b".to_string())).convert_to_lowercase(false)),
+        // Option<usize> max_features at Some(0) / Some(1) / Some(huge); empty stop-word list; boundary frequencies and n-grams
+        ("max_features0", CountVectorizer::params().max_features(Some(0))),
+        ("max_features1_empty_stopwords_ngram22", CountVectorizer::params().max_features(Some(1)).stopwords::<&str>(&[]).n_gram_range(2, 2)),
+        ("max_features_huge_df_0_0", CountVectorizer::params().max_features(Some(usize::MAX)).document_frequency(0.0, 0.0)),
+        ("df_1_1_ngram_1_huge", CountVectorizer::params().document_frequency(1.0, 1.0).n_gram_range(1, usize::MAX)),
         ("invalid_flipped_ngrams", CountVectorizer::params().n_gram_range(3, 1)),
         ("invalid_regex", CountVectorizer::params().tokenizer(Tokenizer::Regex("(unclosed".to_string()))),
     ]
@@ -587,6 +595,8 @@ fn tfidf_points() -> Vec<(&'static str, TfIdfVectorizer)> {
         ("cased_regex_lowercase_on", TfIdfVectorizer::default().tokenizer(Tokenizer::Regex(CASED_REGEX.to_string()))),
         ("cased_regex_lowercase_off", TfIdfVectorizer::default().tokenizer(Tokenizer::Regex(CASED_REGEX.to_string())).convert_to_lowercase(false)),
         ("cased_literal_regex_lowercase_on", TfIdfVectorizer::default().tokenizer(Tokenizer::Regex(CASED_LITERAL_REGEX.to_string()))),
+        ("max_features0", TfIdfVectorizer::default().max_features(Some(0))),
+        ("max_features1_empty_stopwords", TfIdfVectorizer::default().max_features(Some(1)).stopwords::<&str>(&[])),
         ("invalid_zero_ngram", TfIdfVectorizer::default().n_gram_range(0, 1)),
     ]
 }
@@ -843,6 +853,10 @@ fn tree_points<F: Float>() -> Vec<(&'static str, DecisionTreeParams<F, usize>)> 
         ("default", DecisionTree::params()),
         ("entropy_depth3", DecisionTree::params().split_quality(SplitQuality::Entropy).max_depth(Some(3)).min_weight_split(4.0).min_weight_leaf(2.0)),
         ("gini_depth1_min_impurity", DecisionTree::params().max_depth(Some(1)).min_impurity_decrease(F::cast(0.1 + 0.2))),
+        // Option<usize> depth limit at Some(0) (a legal single-leaf tree), Some(1) is above, Some(huge); numeric extremes
+        ("depth0_single_leaf", DecisionTree::params().max_depth(Some(0))),
+        ("depth_huge_zero_weights_eps_impurity", DecisionTree::params().max_depth(Some(usize::MAX)).min_weight_split(0.0).min_weight_leaf(0.0).min_impurity_decrease(F::epsilon())),
+        ("huge_weights_huge_impurity", DecisionTree::params().max_depth(None).min_weight_split(f32::MAX).min_weight_leaf(f32::MAX).min_impurity_decrease(F::cast(1e30))),
         ("invalid_min_impurity", DecisionTree::params().min_impurity_decrease(F::cast(0.0))),
     ]
 }
@@ -891,7 +905,7 @@ fn tree_valid_params(r: &mut Runner) {
         let obs = |v: &DecisionTreeValidParams<F, usize>| tree_valid_obs(v, &x, &y, &q);
         round_trip(o, &Spec::full(&obs), &v);
     }
-    for (n, p) in tree_points::<f64>().into_iter().take(3) {
+    for (n, p) in tree_points::<f64>().into_iter().filter(|(n, _)| !n.starts_with("invalid")) {
         r.inst(&format!("f64/{}", n), |o| go(o, p));
     }
     for (n, p) in tree_points::<f32>().into_iter().take(3) {
